@@ -22,12 +22,23 @@ def cache_configs(g, split):
         out.append(dict(mode='cache', goroutines=g, steps=steps, ck=','.join(map(str, combo))))
     return out
 
+# 2 workers x 3 items: the fully symbolic item graph did not finish (safety unknown after 20 min);
+# the thorough tier fixes the graph to representative shapes (all schedules per shape)
+GRAPHS3 = [
+    'I=111,G=000000000',   # three independent initial items
+    'I=100,G=011000000',   # fan-out: 0 adds 1 and 2
+    'I=100,G=010001000',   # chain 0 -> 1 -> 2
+    'I=110,G=001001000',   # join: 0 and 1 both add 2 (duplicate add)
+    'I=100,G=010001100',   # cycle 0 -> 1 -> 2 -> 0
+    'I=111,G=111111111',   # everything adds everything
+]
+
 CONFIGS = {
     'C09': {
         'quick': [dict(mode='work', workers=2, items=2, steps=29), dict(mode='work', workers=1, items=2, steps=22)],
         'thorough': [dict(mode='work', workers=2, items=2, steps=29), dict(mode='work', workers=1, items=2, steps=22),
                      dict(mode='work', workers=3, items=2, steps=37),
-                     dict(mode='work', workers=2, items=3, steps=40)],
+                     ] + [dict(mode='work', workers=2, items=3, steps=40, graph=g) for g in GRAPHS3],
     },
     'C10': {
         'quick': cache_configs(2, False),
@@ -38,7 +49,7 @@ CONFIGS = {
 BOUNDS = {
     'C09': {
         'quick': '2 workers (Do(2, f)) x 2 items and 1 worker x 2 items (22 transitions), every item graph (f(i) adds j iff G[i][j], G symbolic) and every set of initial adds; all schedules, rand.Intn picks and Signal wake-up choices up to 29 transitions (the unwinding assertion shows every schedule has finished by then)',
-        'thorough': 'additionally 3 workers x 2 items (37 transitions) and 2 workers x 3 items (40 transitions)',
+        'thorough': 'additionally 3 workers x 2 items (37 transitions) and 2 workers x 3 items over six fixed item graphs (independent, fan-out, chain, join, cycle, complete; 40 transitions each)',
     },
     'C10': {
         'quick': '2 goroutines, each performing one call chosen by the solver from {Do(k0), Do(k1), Get(k0), Get(k1)}; all schedules up to 24 transitions',
@@ -51,6 +62,8 @@ def run_cfg(ssa, cfg, outdir, idx, timeout):
     cmd = [PY, os.path.join(HERE, 'bmc.py'), '--ssa', ssa, '--mode', cfg['mode'], '--steps', str(cfg['steps']), '--out', out, '--timeout', str(timeout)]
     if cfg['mode'] == 'work':
         cmd += ['--workers', str(cfg['workers']), '--items', str(cfg['items'])]
+        if cfg.get('graph'):
+            cmd += ['--graph', cfg['graph']]
     else:
         cmd += ['--goroutines', str(cfg['goroutines'])]
         if cfg.get('ck'):
